@@ -20,7 +20,8 @@ use crate::gen_model::{self, VarDecl};
 fn default_tolerance() -> f64 {
     static T: std::sync::OnceLock<f64> = std::sync::OnceLock::new();
     *T.get_or_init(|| {
-        let src = std::fs::read_to_string("/repo/packages/rooc/src/transformers/bounds.rs").unwrap_or_default();
+        let repo = std::env::var("VERIF_REPO").unwrap_or_else(|_| "/repo".to_string());
+        let src = std::fs::read_to_string(format!("{}/packages/rooc/src/transformers/bounds.rs", repo)).unwrap_or_default();
         src.lines()
             .find_map(|l| l.trim().strip_prefix("const DEFAULT_TOLERANCE: f64 =").map(|r| r.trim().trim_end_matches(';').trim().to_string()))
             .and_then(|t| t.parse::<f64>().ok())
@@ -215,14 +216,15 @@ fn run_lin(inst: &Inst) -> Option<Case> {
 /// the compiler's claim about a sub-expression — is compared bit for bit with the composed Lean pipeline
 /// (`Compile.linearize`: normalisation, `analyze`, `enforceable`, `apply_to_domain`, lowering); the exact oracle
 /// tests the published domains of the declared variables against the source-feasible points of the normalised model.
-fn run_compiled(inst: &Inst) -> Option<Case> {
-    if inst.domain.iter().any(|(n, _)| n.starts_with('$')) { return None; }
+fn run_compiled(inst: &Inst) -> Vec<Case> {
+    let mut aux_case: Option<Case> = None;
+    if inst.domain.iter().any(|(n, _)| n.starts_with('$')) { return vec![]; }
     let ds: Vec<VarDecl> = inst.domain.iter().map(|(n, t)| VarDecl { name: n.clone(), ty: *t }).collect();
     let model = gen_model::build(OptimizationType::Satisfy, Exp::Number(0.0), inst.constraints.clone(), &ds);
     // undeclared variables make the front end fail earlier; keep to declared ones
     let mut used = vec![];
     for c in &inst.constraints { names(c.lhs(), &mut used); names(c.rhs(), &mut used); }
-    if used.iter().any(|n| !inst.domain.iter().any(|(m, _)| m == n)) { return None; }
+    if used.iter().any(|n| !inst.domain.iter().any(|(m, _)| m == n)) { return vec![]; }
     let raw = inst.constraints.clone();
     let norm = std::panic::catch_unwind(|| {
         raw.iter().map(|c| {
@@ -230,7 +232,8 @@ fn run_compiled(inst: &Inst) -> Option<Case> {
             if c.is_logic_assertion() { Constraint::new_logic_assertion(n(c.lhs()), c.name().to_string()) }
             else { Constraint::new(n(c.lhs()), c.constraint_type(), n(c.rhs()), c.name().to_string()) }
         }).collect::<Vec<_>>()
-    }).ok()?;
+    }).ok();
+    let Some(norm) = norm else { return vec![]; };
     let mut c = Case::default();
     c.req = format!("compile-domains {} {}", sx::model(&model), sx::num(default_tolerance()));
     let res = std::panic::catch_unwind(std::panic::AssertUnwindSafe(|| Linearizer::linearize(model.clone())));
@@ -272,6 +275,15 @@ fn run_compiled(inst: &Inst) -> Option<Case> {
             for x in &norm { tail.push(' '); tail.push_str(&sx::constraint(x)); }
             tail.push(')');
             c.oracle = format!("check-lin {} {}", tail, imp);
+            if c.nontrivial {
+                // the ranges declared for the compiler's auxiliaries: every source-feasible point must leave, in the rows
+                // that mention one auxiliary only, a value inside the auxiliary's published range
+                let mut a = Case::default();
+                a.oracle = format!("check-aux {} {}", tail, sx::lin_model(&lm));
+                a.imp = String::new();
+                a.nontrivial = true;
+                aux_case = Some(a);
+            }
         }
         // which error, and whether the port agrees on it, is C01's subject (detailed error diff there)
         Ok(Err(_)) => { c.imp = "(err)".into(); c.req = String::new(); kind = "compile-error"; }
@@ -283,7 +295,14 @@ fn run_compiled(inst: &Inst) -> Option<Case> {
     show.push_str("s.t. ");
     for x in &inst.constraints { show.push_str(&format!("{} {} {}; ", x.lhs(), x.constraint_type(), x.rhs())); }
     c.show = show;
-    Some(c)
+    let mut out = vec![];
+    if let Some(mut a) = aux_case {
+        a.tags = vec!["real-linearize-aux".to_string(), format!("aux-{}", inst.tags[0])];
+        a.show = c.show.replace("[Linearizer::linearize]", "[Linearizer::linearize, auxiliary ranges]");
+        out.push(a);
+    }
+    out.insert(0, c);
+    out
 }
 
 // ---------------------------------------------------------------- value pools
@@ -720,6 +739,63 @@ fn s_intulp(r: &mut Rng) -> Inst {
     Inst { domain, constraints: cs, exprs: vec![], tags: vec!["int-ulp".into()] }
 }
 
+/// a tiny coefficient (<= the analyzer's tolerance) on a very wide variable, merged as a LATER term of its side: its
+/// contribution (1e-10 * 1e12 = 100) is not negligible, so the coefficient must not be treated as zero
+fn s_tinycoef(r: &mut Rng) -> Inst {
+    let c = *r.pick(&[1e-10, 5e-10, 1e-9, 1e-11, 2e-10]);
+    let wide = *r.pick(&[1e12, 1e13, 4e12, 1e11]);
+    let b0 = r.range(0, 9) as f64;
+    let ylo = if r.chance(1, 3) { -wide } else { 0.0 };
+    let domain = vec![("x".to_string(), VariableType::Real(-100.0, 1000.0)), ("y".to_string(), VariableType::Real(ylo, wide)),
+                      ("z".to_string(), VariableType::Real(0.0, 10.0))];
+    let tiny = |r: &mut Rng| match r.below(3) { 0 => mul(k(c), v("y")), 1 => mul(v("y"), k(c)), _ => div(v("y"), k(1.0 / c)) };
+    let t = tiny(r);
+    let cs = match r.below(5) {
+        0 => vec![row(sub(v("x"), t), Comparison::LessOrEqual, k(b0), 0)],                       // x <= b + c*y
+        1 => vec![row(add(v("x"), t), Comparison::GreaterOrEqual, k(b0), 0)],                    // x >= b - c*y
+        2 => vec![row(v("x"), Comparison::LessOrEqual, add(k(b0), t), 0)],                       // tiny term merged from the rhs
+        3 => vec![row(add(add(v("x"), v("z")), t), Comparison::Equal, k(b0), 0)],
+        _ => vec![row(sub(sub(mul(k(2.0), v("x")), v("z")), t), Comparison::LessOrEqual, k(b0), 0), row(v("z"), Comparison::GreaterOrEqual, k(1.0), 1)],
+    };
+    Inst { domain, constraints: cs, exprs: vec![], tags: vec!["tiny-coefficient".into()] }
+}
+
+/// non-convex min/max rows (`max{..} >= w`, `min{..} <= w`, `=`) with three or four operands of which one is dominated
+/// and pruned — possibly the FIRST one — so that the compiled model declares `$max_k` / `$min_k` from the retained
+/// operands; the retained operand carrying the extreme bound comes at a random position
+fn s_extreme(r: &mut Rng) -> Inst {
+    let is_max = r.chance(1, 2);
+    let n = 3 + r.below(2);
+    let names = ["z", "x", "y", "u"];
+    let dom_pos = r.below(n.min(2));           // the dominated operand: first (half of the time) or second
+    let mut domain: Vec<(String, VariableType)> = vec![];
+    let mut ops = vec![];
+    let lead = if dom_pos == 0 { 1 } else { 0 }; // first retained operand: give it the extreme bound half of the time
+    let lead_extreme = r.chance(1, 2);
+    for i in 0..n {
+        let (lo, hi) = if i == dom_pos {
+            if is_max { (-(r.range(2, 6) as f64), 0.0) } else { (20.0, 20.0 + r.range(1, 6) as f64) }
+        } else if is_max {
+            let hi = if (i == lead) == lead_extreme { 9.0 + r.range(0, 3) as f64 } else { 3.0 + r.range(0, 3) as f64 };
+            (r.range(0, 2) as f64, hi)
+        } else {
+            let lo = if (i == lead) == lead_extreme { -(9.0 + r.range(0, 3) as f64) } else { -(3.0 + r.range(0, 3) as f64) };
+            (lo, 10.0 + r.range(0, 5) as f64)
+        };
+        let ty = if r.chance(1, 4) { VariableType::IntegerRange(lo as i32, hi as i32) } else { VariableType::Real(lo, hi) };
+        domain.push((names[i].to_string(), ty));
+        ops.push(if r.chance(1, 5) { add(v(names[i]), k(0.0)) } else { v(names[i]) });
+    }
+    domain.push(("w".to_string(), VariableType::Real(-50.0, 50.0)));
+    let e = if is_max { Exp::Max(ops) } else { Exp::Min(ops) };
+    let cs = match r.below(3) {
+        0 => vec![row(e, if is_max { Comparison::GreaterOrEqual } else { Comparison::LessOrEqual }, v("w"), 0)],
+        1 => vec![row(e, Comparison::Equal, v("w"), 0)],
+        _ => vec![row(v("w"), Comparison::Equal, add(e, k(1.0)), 0)],
+    };
+    Inst { domain, constraints: cs, exprs: vec![], tags: vec!["extreme-pruned".into()] }
+}
+
 fn s_zero(r: &mut Rng) -> Inst {
     let vars = var_names(2 + r.below(2));
     let domain = vars.iter().map(|x| (x.clone(), var_type(r, false))).collect();
@@ -897,7 +973,7 @@ pub fn generate(seed: u64, n: usize, _thorough: bool, _corpus: Option<&str>) -> 
     for inst in fixed().iter() {
         cases.push(run(inst));
         if let Some(c) = run_lin(inst) { cases.push(c); }
-        if let Some(c) = run_compiled(inst) { cases.push(c); }
+        cases.extend(run_compiled(inst));
     }
     // the step-limit stream costs 10^4 visits per case on both sides: a fixed small share
     let slow = (n / 30).max(6);
@@ -908,6 +984,8 @@ pub fn generate(seed: u64, n: usize, _thorough: bool, _corpus: Option<&str>) -> 
     }
     for i in 0..n {
         let inst = match i % 16 {
+            0 if i % 32 == 16 => s_tinycoef(&mut r),
+            8 if i % 32 == 24 => s_extreme(&mut r),
             0 | 1 | 2 => s_affine(&mut r),
             3 | 4 => s_chain(&mut r),
             5 => s_contradiction(&mut r),
@@ -921,10 +999,10 @@ pub fn generate(seed: u64, n: usize, _thorough: bool, _corpus: Option<&str>) -> 
             _ => s_undeclared(&mut r),
         };
         let mut inst = inst;
-        if matches!(i % 16, 0 | 1 | 3 | 8 | 9 | 11 | 12 | 14) && r.chance(5, 6) { steer(&mut r, &mut inst); }
+        if matches!(i % 16, 0 | 1 | 3 | 8 | 9 | 11 | 12 | 14) && !matches!(i % 32, 16 | 24) && r.chance(5, 6) { steer(&mut r, &mut inst); }
         cases.push(run(&inst));
         if i % 3 != 0 { if let Some(c) = run_lin(&inst) { cases.push(c); } }
-        if i % 2 == 0 || matches!(i % 16, 5 | 9) { if let Some(c) = run_compiled(&inst) { cases.push(c); } }
+        if i % 2 == 0 || matches!(i % 16, 5 | 9) { cases.extend(run_compiled(&inst)); }
     }
     cases
 }
